@@ -289,7 +289,7 @@ func (eng *Engine) discharge(vc *VC, workDir string, timeoutMs int, thorough boo
 		lightPaths := map[int][]string{}
 		focused := map[int]string{}
 		for _, i := range idxs {
-			if k := vc.obls[i].Kind; k == "frame" || k == "framestep" {
+			if !vc.obls[i].Cover {
 				focused[i] = vc.smtFocused(i)
 			}
 			lights[i] = vc.smtLight(i)
@@ -319,7 +319,11 @@ func (eng *Engine) discharge(vc *VC, workDir string, timeoutMs int, thorough boo
 				if ftxt := focused[i]; ftxt != "" {
 					// frame goals: only the hypotheses about the heap in question (and allocation)
 					os.WriteFile(qf, []byte(ftxt), 0o644)
-					if fst, fby := raceSolvers(qf, timeoutMs/2); fst == "unsat" {
+					ft := timeoutMs / 2
+					if k := vc.obls[i].Kind; k != "frame" && k != "framestep" {
+						ft = timeoutMs / 4
+					}
+					if fst, fby := raceSolvers(qf, ft); fst == "unsat" {
 						ch <- ans{i, "unsat", fby + "/focused", time.Since(start).Seconds()}
 						return
 					}
